@@ -128,7 +128,9 @@ CLAIMED["C04"] = dict(
     text="PARTIAL (a process killed INSIDE a port's creation / removal and the service files of the other messaging patterns are not modelled). SERVICE level: Lean kill tables over the "
          "step-level ServiceCrash model (creator 20 steps, opener 23 steps, cleaner, re-creator; `Sys.withCrash`) for EVERY crash point: after the survivors' clean-up the system is restored "
          "(nothing left, the name can be created again) exactly when the decidable predicate `cleanPoint` holds; the three windows where it is not (service tag / static config still at creation "
-         "permission, dynamic config not yet sized) are refutations with concrete witnesses = known findings; a second crash of the cleaner changes nothing. PORT level (publish-subscribe): the "
+         "permission, dynamic config not yet sized) are refutations with concrete witnesses = known findings; a second crash of the cleaner changes nothing. PORT CREATION (Publisher / Subscriber of such a service, PortCrash model): the same kill tables for every fuse — restored except in "
+         "the port-tag window (known finding D26) and between the connection's final fchmod and reserve_port (connection leaked); a cleaner killed between the removal of the port tag and "
+         "the release of the registry slot leaks the slot (refutations = known findings). PORT level (publish-subscribe): the "
          "death of a node between two API calls followed by the clean-up is observationally an orderly drop of its objects, expressed with the proved L1 model's own operations (all C01/C02/C08 "
          "theorems apply to the survivors). File-system level of the NODE: Lean kill tables and theorems over the step-level Lifecycle model "
          "(see C07): a process killed between the commit of its monitoring token and the removal of its state file is collected completely by a survivor; killed earlier or later it is "
